@@ -5,6 +5,7 @@ _process_chunk_spec / _process_chunk, stats_utils.summary_stats_for_chunk,
 precompute._create_empty_stats_file, AnnDataRowIterator.get_chunk,
 CellByGeneMatrix.to_log2CPM_in_place."""
 from symx import core
+from symx.core import And, Or, Not, Implies, Sum
 from harness.common import Harness, Env
 from harness import refstats as RS
 
@@ -13,6 +14,14 @@ def h_stage(ctx, case):
     env = Env(ctx)
     inp = RS.build_inputs(ctx, case, env)
     res = RS.run_stage(ctx, case, env, inp)
+    mismatch = any(g != inp['genes'] for g in inp['file_genes'].values())
+    if mismatch:
+        # files whose gene tables differ cannot be added column by column
+        ctx.reach('gene tables differ')
+        ctx.check(isinstance(res['raised'], RuntimeError),
+                  'reference files with different gene orders are refused '
+                  '(never summed positionally)')
+        return 'refused'
     if res['raised'] is not None:
         ctx.exception(res['raised'])
         return 'EXC'
@@ -25,6 +34,163 @@ def h_stage(ctx, case):
     return 'ok'
 
 
+def setup_trunc(case, mode):
+    from harness.common import set_mode, shimmed, install_np, install_h5
+    import cell_type_mapper.diff_exp.truncate_precompute as TP
+    import cell_type_mapper.diff_exp.precompute_utils as PU
+    import cell_type_mapper.utils.h5_utils as HU
+    import cell_type_mapper.taxonomy.taxonomy_tree as TT
+    set_mode(mode)
+    if shimmed(mode):
+        install_np(TP, PU, HU)
+        install_h5(TP, PU, HU, TT)
+
+
+def _write_stats(ctx, env, path, tag, leaves, row_of, genes, tree):
+    """a statistics file with symbolic tables; returns the tables"""
+    import json
+    import numpy as np
+    from harness.common import reals, ints, sarr
+    n, g = len(leaves), len(genes)
+    tabs = {'n_cells': ints(ctx, f"{tag}.n", (n,), 0, 50),
+            'sum': reals(ctx, f"{tag}.sum", (n, g)),
+            'sumsq': reals(ctx, f"{tag}.sumsq", (n, g), 0, None),
+            'gt0': ints(ctx, f"{tag}.gt0", (n, g), 0, 50),
+            'gt1': ints(ctx, f"{tag}.gt1", (n, g), 0, 50),
+            'ge1': ints(ctx, f"{tag}.ge1", (n, g), 0, 50)}
+    with env.File(path, 'w') as f:
+        f.create_dataset('col_names',
+                         data=json.dumps(genes).encode('utf-8'))
+        f.create_dataset('cluster_to_row', data=json.dumps(
+            {lf: row_of[lf] for lf in leaves}).encode('utf-8'))
+        f.create_dataset('taxonomy_tree',
+                         data=tree.to_str().encode('utf-8'))
+        for k, v in tabs.items():
+            isint = k not in ('sum', 'sumsq')
+            if env.fake:
+                f.create_dataset(k, data=sarr(v), dtype=int if isint
+                                 else float)
+            else:
+                f.create_dataset(k, data=np.array(
+                    v.tolist(), dtype=int if isint else float))
+    return tabs
+
+
+def h_truncate(ctx, case):
+    """truncate_precomputed_stats_file: collapsing to a coarser hierarchy
+    gives the statistics of that hierarchy, addressed through the file's
+    own cluster-to-row table"""
+    import json
+    from harness.common import level_names, tree_data, symbolic_parents
+    from harness.C10 import Oracle
+    from cell_type_mapper.taxonomy.taxonomy_tree import TaxonomyTree
+    import cell_type_mapper.diff_exp.truncate_precompute as TP
+    sizes = case['sizes']
+    levels, names = level_names(sizes)
+    parents = symbolic_parents(ctx, sizes, onto=True)
+    data = tree_data(levels, names, parents)
+    orc = Oracle(levels, names, parents)
+    tree = TaxonomyTree(data=data)
+    last = len(levels) - 1
+    leaves = list(names[last])
+    # the row table need not be alphabetical
+    perm = ctx.perm('row_order', len(leaves))
+    row_of = {lf: perm[i] for i, lf in enumerate(leaves)}
+    genes = ['gB', 'gA'][:case.get('genes', 1)]
+    env = Env(ctx)
+    src = env.path('stats.h5')
+    tabs = _write_stats(ctx, env, src, 's', leaves, row_of, genes, tree)
+    # any strict sub-hierarchy (order preserved)
+    keep = [lv for lv in levels if ctx.flag(f"keep[{lv}]")]
+    if not keep or keep == levels:
+        raise core.PathAbort('not a strict sub-hierarchy')
+    out = env.path('truncated.h5')
+    try:
+        TP.truncate_precomputed_stats_file(src, out, list(keep))
+    except Exception as e:
+        ctx.exception(e)
+        return 'EXC ' + type(e).__name__
+    ctx.reach('truncated')
+    nl = levels.index(keep[-1])
+    with env.File(out, 'r') as f:
+        c2r = json.loads(f['cluster_to_row'][()].decode('utf-8'))
+        t2 = TaxonomyTree.from_str(f['taxonomy_tree'][()].decode('utf-8'))
+        ctx.check(json.loads(f['col_names'][()].decode('utf-8')) == genes,
+                  'gene table kept')
+        ctx.check(t2.hierarchy == keep and
+                  sorted(t2.all_leaves) == sorted(names[nl]),
+                  'stored taxonomy is the coarser hierarchy')
+        ctx.check(sorted(c2r) == sorted(names[nl]) and
+                  sorted(c2r.values()) == list(range(len(names[nl]))),
+                  'row table addresses the new leaves')
+        for k, v in tabs.items():
+            got = f[k][()]
+            for node in names[nl]:
+                under = orc.leaves(nl, node)
+                if node not in c2r:
+                    continue
+                r = c2r[node]
+                if v.ndim == 1:
+                    ctx.check(ctx.eq(got[r], Sum([v[row_of[lf]]
+                                                  for lf in under])),
+                              f'{k} of a merged leaf == sum over its old '
+                              'leaves')
+                else:
+                    for g in range(len(genes)):
+                        ctx.check(ctx.eq(got[r, g],
+                                         Sum([v[row_of[lf], g]
+                                              for lf in under])),
+                                  f'{k} of a merged leaf == sum over its '
+                                  'old leaves')
+    return 'ok'
+
+
+def h_merge(ctx, case):
+    """merge_precompute_files: per cluster, the row of the dataset with
+    the most cells"""
+    import json
+    from cell_type_mapper.taxonomy.taxonomy_tree import TaxonomyTree
+    import cell_type_mapper.diff_exp.precompute_utils as PU
+    leaves = ['clB', 'clA'][:case.get('clusters', 2)]
+    tree = TaxonomyTree(data={'hierarchy': ['cluster'],
+                              'cluster': {lf: [] for lf in leaves}})
+    row_of = {lf: i for i, lf in enumerate(sorted(leaves))}
+    genes = ['g0']
+    env = Env(ctx)
+    paths, tabs = [], []
+    for i in range(case['files']):
+        p = env.path(f"stats_{'bac'[i]}.h5")
+        tabs.append(_write_stats(ctx, env, p, f"f{i}", leaves, row_of,
+                                 genes, tree))
+        paths.append(p)
+    out = env.path('merged.h5')
+    try:
+        PU.merge_precompute_files(list(paths), out)
+    except Exception as e:
+        ctx.exception(e)
+        return 'EXC ' + type(e).__name__
+    ctx.reach('merged')
+    with env.File(out, 'r') as f:
+        c2r = json.loads(f['cluster_to_row'][()].decode('utf-8'))
+        ctx.check(c2r == row_of, 'row table kept')
+        got = {k: f[k][()] for k in tabs[0]}
+    for lf in leaves:
+        r = row_of[lf]
+        ns = [t['n_cells'][r] for t in tabs]
+        # the merged row must be the row of SOME dataset whose cell count
+        # for this cluster is maximal
+        opts = []
+        for i, t in enumerate(tabs):
+            ismax = And(*[ns[i] >= x for x in ns])
+            same = And(ctx.eq(got['n_cells'][r], t['n_cells'][r]),
+                       *[ctx.eq(got[k][r, 0], t[k][r, 0])
+                         for k in t if k != 'n_cells'])
+            opts.append(And(ismax, same))
+        ctx.check(Or(*opts), 'merged row == row of a dataset with the most '
+                  'cells for that cluster')
+    return 'ok'
+
+
 HARNESSES = [
     Harness('statistics_stage', h_stage, setup=RS.setup,
             cases=[{'cells': 2, 'genes': 1, 'clusters': 2},
@@ -33,6 +199,8 @@ HARNESSES = [
                    {'cells': 3, 'genes': 1, 'clusters': 2, 'max_proc': 2},
                    {'files': 2, 'cells': 2, 'genes': 1, 'clusters': 2,
                     'max_proc': 2},
+                   {'files': 2, 'cells': 1, 'genes': 2, 'clusters': 1,
+                    'max_proc': 1, 'perm_genes': True},
                    {'cells': 2, 'genes': 2, 'clusters': 1,
                     'normalization': 'raw', 'max_proc': 2},
                    {'cells': 2, 'genes': 1, 'clusters': 2, 'enc': 'csr',
@@ -71,5 +239,31 @@ HARNESSES = [
             outside='coarsening and per-dataset merging (thorough tier '
                     'only when built); the scrattch / ABC CLI writers; '
                     'float summation order (sums compared as reals)',
-            expect_reach=['written'], selftest=6, split=64),
+            expect_reach=['written', 'gene tables differ'], selftest=6,
+            split=64),
+    Harness('truncate_to_coarser_hierarchy', h_truncate, setup=setup_trunc,
+            cases=[{'sizes': [2, 3]}, {'sizes': [1, 2, 3]}],
+            thorough_cases=[{'sizes': [2, 3], 'genes': 2},
+                            {'sizes': [1, 2, 3]}, {'sizes': [2, 2, 3]},
+                            {'sizes': [2, 3, 4]}],
+            funcs=['truncate_precompute.truncate_precomputed_stats_file',
+                   '_convert_to_new_leaves', 'TaxonomyTree.drop_level',
+                   'drop_leaf_level', 'from_precomputed_stats'],
+            stubs=['h5py -> model'],
+            bounds='every onto tree of the listed sizes, every strict '
+                   'sub-hierarchy, every row order of the old '
+                   'cluster-to-row table, all six tables symbolic',
+            expect_reach=['truncated'], selftest=6, split=48),
+    Harness('merge_per_dataset_files', h_merge, setup=setup_trunc,
+            cases=[{'files': 2, 'clusters': 2}, {'files': 3, 'clusters': 1}],
+            thorough_cases=[{'files': 2, 'clusters': 2},
+                            {'files': 3, 'clusters': 2}],
+            funcs=['precompute_utils.merge_precompute_files',
+                   'run_leaf_census', 'h5_utils.copy_h5_excluding_data',
+                   '_copy_h5_element'],
+            stubs=['h5py -> model'],
+            bounds='2-3 per-dataset files, 1-2 clusters, all tables '
+                   'symbolic (cell counts in [0,50]); ties accepted '
+                   'either way',
+            expect_reach=['merged'], selftest=6, split=32),
 ]
